@@ -94,14 +94,18 @@ class SymArr(np.ndarray):
         return obj
 
     _real_only = False      # set on arrays created with a real dtype: assignments drop imaginary parts (NumPy's cast)
+    _int_only = False       # integer element type: assignments truncate, in-place arithmetic with floats is refused
 
     def __array_finalize__(self, obj):
         # views share the element type of their base; fresh results of arithmetic do not inherit it
-        self._real_only = getattr(obj, '_real_only', False) if (obj is not None and self.base is not None) else False
+        view = obj is not None and self.base is not None
+        self._real_only = getattr(obj, '_real_only', False) if view else False
+        self._int_only = getattr(obj, '_int_only', False) if view else False
 
     def copy(self, *a, **kw):
         r = super().copy(*a, **kw)
         r._real_only = self._real_only
+        r._int_only = self._int_only
         return r
 
     @property
@@ -109,10 +113,18 @@ class SymArr(np.ndarray):
         base = _ND_DTYPE(self)
         if base != np.dtype(object):
             return base
+        if self._int_only:
+            return SymDType('i')
         cplx = builtins.any(isinstance(e, (SymC, complex, np.complexfloating)) for e in np.asarray(self).flat)
         return SymDType('c' if cplx else 'f')
 
     def astype(self, dtype, *a, **kw):
+        if isinstance(dtype, SymDType):
+            if dtype.sym_kind != 'i':
+                return self
+            out = _map(lambda e: e.astype(int) if _is_sym(e) else int(e), np.asarray(self).view(SymArr))
+            out._int_only = True
+            return out
         if dtype is object or dtype == object:
             return self
         if dtype in (complex, np.complex128, np.complex64):
@@ -148,6 +160,9 @@ class SymArr(np.ndarray):
                 np.ndarray.__setitem__(self, idx, core.ite(key[idx], valb[idx], np.ndarray.__getitem__(self, idx)))
             return
         key = _concretize_key(key, self.shape)
+        if self._int_only:
+            tr = lambda e: (e.astype(int) if isinstance(e, Sym) else (int(e) if isinstance(e, (float, np.floating)) else e))
+            val = _map(tr, val) if isinstance(val, np.ndarray) else tr(val)
         if self._real_only:
             val = _map(lambda e: e.real if isinstance(e, (SymC, complex, np.complexfloating)) else e, val) if isinstance(val, np.ndarray) else (val.real if isinstance(val, (SymC, complex, np.complexfloating)) else val)
         super().__setitem__(key, val)
@@ -178,6 +193,9 @@ class SymArr(np.ndarray):
     __hash__ = None
 
     def _inplace(self, o, f, sup):
+        if self._int_only and not _int_typed(o):
+            # NumPy: UFuncTypeError, cannot cast the float64 result to the integer output under 'same_kind'
+            raise TypeError("Cannot cast ufunc output from dtype('float64') to dtype('int64') with casting rule 'same_kind'")
         if _is_sym(o):
             np.ndarray.__setitem__(self, Ellipsis, f(np.asarray(self).view(SymArr), o))
             return self
@@ -531,9 +549,6 @@ class NPProxy:
             return sarr(x)
         return np.asarray(x, dtype=dtype, **kw)
 
-    def copy(self, a, **kw):
-        return np.copy(a, **kw)
-
     def linspace(self, start, stop, num=50, endpoint=True, **kw):
         if getattr(start, '_fp', False) or getattr(stop, '_fp', False):
             from . import fp
@@ -776,6 +791,9 @@ class NPProxy:
     def isscalar(self, x):
         return _is_sym(x) or np.isscalar(x)
 
+    def copy(self, a, *args, **kw):
+        return a.copy() if isinstance(a, SymArr) else np.copy(a, *args, **kw)
+
     def result_type(self, *args):
         kinds = []
         for a in args:
@@ -793,6 +811,16 @@ class NPProxy:
         rest = [a for a, k in zip(args, kinds) if k is None]
         base = np.result_type(*rest) if rest else np.dtype(float)
         return SymDType('c' if ('c' in kinds or base.kind == 'c') else 'f')
+
+
+def _int_typed(o):
+    if isinstance(o, SymArr):
+        return o._int_only or (_ND_DTYPE(o) != np.dtype(object) and _ND_DTYPE(o).kind in 'iub')
+    if isinstance(o, np.ndarray):
+        return o.dtype.kind in 'iub'
+    if isinstance(o, Sym):
+        return bool(o.is_int)
+    return isinstance(o, (int, np.integer, bool, np.bool_, SymB))
 
 
 def _is_real_dtype(dtype):
